@@ -282,3 +282,104 @@ def roundtrip_corpus(w):
             if len(failures) >= 3:
                 break
     return {"cases": cases, "failures": failures}
+
+
+REQUIRED_ATTRS = {"defTextVector": ("device", "name", "state", "perm"), "defNumberVector": ("device", "name", "state", "perm"),
+                  "defSwitchVector": ("device", "name", "state", "perm", "rule"), "defBLOBVector": ("device", "name", "state", "perm"),
+                  "defLightVector": ("device", "name", "state"), "setTextVector": ("device", "name"), "setNumberVector": ("device", "name"),
+                  "setSwitchVector": ("device", "name"), "setBLOBVector": ("device", "name"), "setLightVector": ("device", "name"),
+                  "newTextVector": ("device", "name"), "newNumberVector": ("device", "name"), "newSwitchVector": ("device", "name"),
+                  "newBLOBVector": ("device", "name"), "enableBLOB": ("device",), "delProperty": ("device",), "getProperties": ("version",)}
+
+
+@kind("codec.parse_corpus")
+def parse_corpus(w):
+    """bounded stand-in for C13 when a task is out of the engine's reach: every vector tag x every constrained field perturbed (absent, empty,
+    wrong case, foreign vocabulary member, python-internal looking, arbitrary) x children of every other kind; parsing must fail or yield a
+    conformant message"""
+    import xml.etree.ElementTree as ET
+    from indi.message import IndiMessage
+    bad_values = [None, "", "ok", "OK", "Idle ", "rw ", "On", "Never", "indi.message.const", "__module__", "None", "1", "\xe9"]
+    probs, cases = [], 0
+    child_attrs = {"defNumber": {"name": "c", "format": "%f", "min": "0", "max": "1", "step": "1"}, "oneBLOB": {"name": "c", "size": "0", "format": ""}}
+    for tag, req in REQUIRED_ATTRS.items():
+        base = {"device": "D", "name": "P", "state": "Ok", "perm": "rw", "rule": "OneOfMany", "version": "1.7"}
+        base = {k: v for k, v in base.items() if k in req or k in ("device", "name")}
+        variants = [dict(base)]
+        for fld in list(base) + list(FIELD_VOCAB.get(tag, {})):
+            for bv in bad_values:
+                v = dict(base)
+                if bv is None:
+                    v.pop(fld, None)
+                else:
+                    v[fld] = bv
+                variants.append(v)
+        for attrs in variants:
+            texts = [None] if tag != "enableBLOB" else [None, "Also", "also", "Sometimes", ""]
+            for text in texts:
+                kids = [None] + sorted(set(CHILD_TAG.values()) | {"junk"}) if tag in CHILD_TAG else [None]
+                for kid in kids:
+                    e = ET.Element(tag, {k: v for k, v in attrs.items() if k != "value"})
+                    if text is not None:
+                        e.text = text
+                    if kid is not None:
+                        k = ET.SubElement(e, kid, child_attrs.get(kid, {"name": "c"}))
+                        k.text = {"defSwitch": "On", "oneSwitch": "Off", "defLight": "Ok", "oneLight": "Busy", "defNumber": "1", "oneNumber": "x1"}.get(kid, "t")
+                    cases += 1
+                    try:
+                        m = IndiMessage.from_xml(e)
+                    except Exception:
+                        continue
+                    p = nonconformities(m, tag)
+                    if m.tag_name() != tag:
+                        p.append("parsed <%s> as %s" % (tag, m.__class__.__name__))
+                    for a in req:
+                        if getattr(m, a, None) is None:
+                            p.append("required attribute %s absent" % a)
+                    for c in getattr(m, "children", None) or ():
+                        if not hasattr(c, "tag_name") or c.tag_name() != CHILD_TAG.get(tag):
+                            p.append("child %r is not a <%s>" % (c, CHILD_TAG.get(tag)))
+                        else:
+                            p += nonconformities(c, c.tag_name())
+                    if p:
+                        probs.append("%s %r text=%r child=%s: %s" % (tag, attrs, text, kid, "; ".join(p)))
+                        if len(probs) >= 3:
+                            return {"cases": cases, "reproduced": True, "detail": "; ".join(probs),
+                                    "failures": [{"detail": x, "reproduced": True, "witness": {"replay_kind": "codec.parse_corpus"}} for x in probs]}
+    return {"cases": cases, "reproduced": False, "detail": "every accepted element is conformant", "failures": []}
+
+
+@kind("codec.eq_corpus")
+def eq_corpus(w):
+    """bounded stand-in for C20 when a task is out of the engine's reach: messages of every vector kind with 0-2 children; every single-field
+    and single-child difference must compare unequal, structurally identical messages equal"""
+    from indi import message as M
+    from indi.message import one_parts as OP, def_parts as DP
+    probs, cases = [], 0
+
+    def mk(kind, state="Ok", name="P", children=(("a", "1"), ("b", "1")), label=None):
+        part = getattr(OP, "One" + kind)
+        extra = {"size": "1", "format": ".x"} if kind == "BLOB" else {}
+        vals = {"Switch": {"1": "On", "2": "Off"}, "Light": {"1": "Ok", "2": "Busy"}}.get(kind, {})
+        ch = tuple(part(name=n, value=vals.get(v, v), **extra) for n, v in children)
+        return getattr(M, "Set%sVector" % kind)(device="D", name=name, state=state, children=ch)
+    for kind in ("Text", "Number", "Switch", "Light", "BLOB"):
+        a = mk(kind)
+        same = mk(kind)
+        cases += 1
+        if not (a == same):
+            probs.append("%s: structurally identical messages compare unequal" % kind)
+        variants = {"state": mk(kind, state="Busy"), "name": mk(kind, name="Q"), "first child value": mk(kind, children=(("a", "2"), ("b", "1"))),
+                    "last child value": mk(kind, children=(("a", "1"), ("b", "2"))), "first child name": mk(kind, children=(("x", "1"), ("b", "1"))),
+                    "child order": mk(kind, children=(("b", "1"), ("a", "1"))), "child count": mk(kind, children=(("a", "1"),)),
+                    "extra child": mk(kind, children=(("a", "1"), ("b", "1"), ("c", "1"))), "no children": mk(kind, children=())}
+        for what, b in variants.items():
+            cases += 1
+            if a == b or b == a:
+                probs.append("%s: messages differing in %s compare equal" % (kind, what))
+        cases += 1
+        other = mk("Text" if kind != "Text" else "Number")
+        if a == other:
+            probs.append("%s: messages of different kinds compare equal" % kind)
+    return {"cases": cases, "reproduced": bool(probs), "detail": "; ".join(probs[:3]) or "equality is structural on the corpus",
+            "failures": [{"detail": x, "reproduced": True, "witness": {"replay_kind": "codec.eq_corpus"}} for x in probs[:3]]}
